@@ -158,6 +158,7 @@ func genC07Main(t *rapid.T) C07Case {
 	}
 	o := fullOpts
 	o.Sloppy = chancePct(t, 20, "sloppy")
+	o.ResetEmpty = true
 	a := GenApp(t, o)
 	// a first function that does nothing a client can see (no flag, no refusal): it runs
 	// once for the long-lived engine and at every request of the stored session
